@@ -28,6 +28,11 @@ pub fn amplifies(fl: &Flags, magnitude: f64) -> R<()> {
     if fl.tol.get() > 0.0 && !(magnitude.abs() <= 1e3) { Err(Stop::Unspec("ErrorAmplificationAfterInexactOperation")) } else { Ok(()) }
 }
 
+/// an inexact (tolerance-checked) result at the edge of the double range: one side may be inf, the other just below MAX
+pub fn near_overflow(v: f64) -> R<f64> {
+    if v.is_finite() && v.abs() > 1e300 { Err(Stop::Unspec("InexactNearOverflow")) } else { Ok(v) }
+}
+
 pub struct F64Sem {
     pub ph: f64,
     pub flags: Flags,
@@ -115,7 +120,7 @@ pub fn agg_f64(func: &str, a: &[f64], fl: &Flags) -> R<f64> {
 
 /// one-argument functions shared by f64 / number (value semantics on doubles)
 pub fn fn1_f64(func: &str, x: f64, fl: &Flags) -> R<f64> {
-    let t = |v: f64| -> R<f64> { fl.inexact(TOL); Ok(v) };
+    let t = |v: f64| -> R<f64> { fl.inexact(TOL); near_overflow(v) };
     if matches!(func, "Exp" | "Exp2" | "Sin" | "Cos" | "Tan" | "Sinh" | "Cosh") { amplifies(fl, x)?; }
     match func { "Floor" | "Ceil" | "Truncate" => at_discontinuity(fl, x, "int")?, "Round" => at_discontinuity(fl, x, "half")?, "Sign" => at_discontinuity(fl, x, "zero")?, _ => {} }
     match func {
@@ -138,7 +143,7 @@ pub fn fn1_f64(func: &str, x: f64, fl: &Flags) -> R<f64> {
 }
 
 pub fn fn2_f64(func: &str, a: f64, b: f64, fl: &Flags) -> R<f64> {
-    let t = |v: f64| -> R<f64> { fl.inexact(TOL); Ok(v) };
+    let t = |v: f64| -> R<f64> { fl.inexact(TOL); near_overflow(v) };
     if func == "Pow" || func == "Root" { amplifies(fl, if func == "Pow" { b } else { 1.0 / a })?; }
     match func {
         "Mod" => { if fl.tol.get() > 0.0 { return Err(Stop::Unspec("RemainderOfInexactOperand")); } Ok(a % b) }
@@ -165,8 +170,8 @@ impl Sem for F64Sem {
         match op {
             "neg" => Ok(-a),
             "fact" => factorial_f64(a, &self.flags),
-            "deg" => { self.flags.inexact(TOL); Ok(a * (std::f64::consts::PI / 180.0)) }
-            "rad" => { self.flags.inexact(TOL); Ok(a * (180.0 / std::f64::consts::PI)) }
+            "deg" => { self.flags.inexact(TOL); near_overflow(a * (std::f64::consts::PI / 180.0)) }
+            "rad" => { self.flags.inexact(TOL); near_overflow(a * (180.0 / std::f64::consts::PI)) }
             "floor" => { at_discontinuity(&self.flags, a, "int")?; Ok(a.floor()) }
             "ceil" => { at_discontinuity(&self.flags, a, "int")?; Ok(a.ceil()) }
             _ => Err(Stop::Unspec("UnknownUnary")),
